@@ -102,6 +102,15 @@ func Families(tier string) []Family {
 			v.DefI = 1
 			c.Opts = []OptCfg{opt("string", "s", 1, "str"), opt("sopt", "so", 1), opt("bool", "b", 1), nb, v}
 			f.Defs = append(f.Defs, Def{Cfg: c, Tokens: toks, L: lim(tier, 3, 4)})
+			if mode < 2 {
+				// what was given before a wrapper command or the help command is still reported by the top-level object
+				cw := Cfg{Mode: mode}
+				cw.Nodes = []NodeCfg{rootNode(0, false), cmdNode("w", 1, 2, false, true)}
+				cw.Nodes[1].Unset = true
+				cw.Opts = []OptCfg{opt("string", "s", 1, "str"), opt("sopt", "so", 1), opt("bool", "b", 1), v}
+				cw = WithHelp(cw, "help")
+				f.Defs = append(f.Defs, Def{Cfg: cw, Tokens: Ts("--s=x", "--s", "--so", "--b", "--v", "w", "help", "x"), L: lim(tier, 3, 4)})
+			}
 		}
 		fams = append(fams, f)
 	}
@@ -140,10 +149,57 @@ func Families(tier string) []Family {
 					c.Nodes = []NodeCfg{rootNode(0, false), cmdNode("cmd", 1, 0, false, true)}
 					c.Opts = []OptCfg{multi(m.kind, "l", 1, g[0], g[1]), opt("bool", "b", 1)}
 					f.Defs = append(f.Defs, Def{Cfg: c, Tokens: m.toks, L: lim(tier, 3, 5)})
+					if mode == 0 && gi < 2 {
+						// GetEnv on a multi-value option is a no-op, whatever the variable holds
+						ce := c
+						ce.Opts = []OptCfg{multi(m.kind, "l", 1, g[0], g[1]), opt("bool", "b", 1)}
+						ce.Opts[0].Env = T("VERIF_ENV_ML")
+						ce.Env = []EnvCfg{{Name: T("VERIF_ENV_ML"), Val: map[string]Tok{"sslice": T("fromenv"), "islice": T("7"), "fslice": T("0.5"), "smap": T("envkey=v")}[m.kind]}}
+						f.Defs = append(f.Defs, Def{Cfg: ce, Tokens: m.toks, L: lim(tier, 2, 3)})
+					}
 				}
 			}
 			fams = append(fams, f)
 		}
+	}
+	// late-wrapper: the options of every level are declared after its commands (with and without a help command); a
+	// wrapper (UnsetOptions) has options of its own - one required, one bound to the environment - and a sub-command that
+	// must see them (C05, C10, C11, C12)
+	{
+		f := Family{Name: "late-wrapper"}
+		toks := Ts("w", "s", "p", "--verb", "--ver", "--verbosity=x", "--so", "--tok=y", "x")
+		for mode := 0; mode < 2; mode++ {
+			for _, help := range []bool{false, true} {
+				c := Cfg{Mode: mode, OptsLate: true}
+				c.Nodes = []NodeCfg{rootNode(0, false), cmdNode("w", 1, 0, false, true), cmdNode("s", 2, 0, false, true), cmdNode("p", 1, 0, false, true)}
+				c.Nodes[1].Unset = true
+				vb := opt("string", "verbosity", 2)
+				vb.Req = true
+				tk := opt("string", "tok", 2)
+				tk.Env = T("VERIF_ENV_LW")
+				c.Env = []EnvCfg{{Name: T("VERIF_ENV_LW"), Val: T("fromenv")}}
+				c.Opts = []OptCfg{opt("bool", "verbose", 1, "v"), vb, opt("bool", "ver", 2), tk, opt("bool", "so", 3)}
+				if help {
+					c = WithHelp(c, "help")
+				}
+				f.Defs = append(f.Defs, Def{Cfg: c, Tokens: toks, L: lim(tier, 4, 5), Disp: true})
+			}
+		}
+		fams = append(fams, f)
+	}
+	// deep-ro: require-order set only on a command at depth 2; the levels above collect text and pass unknown options (C09, C03)
+	{
+		f := Family{Name: "deep-ro"}
+		toks := Ts("cmd", "sub", "x", "--u", "--b", "--c", "--t", "--", "y")
+		for mode := 0; mode < 2; mode++ {
+			for _, um := range []int{0, 2} {
+				c := Cfg{Mode: mode}
+				c.Nodes = []NodeCfg{rootNode(um, false), cmdNode("cmd", 1, um, false, true), cmdNode("sub", 2, um, true, true)}
+				c.Opts = []OptCfg{opt("bool", "b", 1), opt("bool", "c", 2), opt("bool", "t", 3)}
+				f.Defs = append(f.Defs, Def{Cfg: c, Tokens: toks, L: lim(tier, 4, 5)})
+			}
+		}
+		fams = append(fams, f)
 	}
 	// term: `--` at every position after every context (C04, C09)
 	{
